@@ -74,7 +74,7 @@ def rule_r1(repo):
             ok = any(norm(v) == idx_param for v in S[attr])
             want = idx_param
         elif attr in I:
-            ok = any(same_ast(v, i) for v in S[attr] for i in I[attr])
+            ok = any(same_ast(v, i) or same_value(repo, v, i) for v in S[attr] for i in I[attr])
             want = ' | '.join(sorted(set(norm(i) for i in I[attr])))
         else:
             ok = True
@@ -87,7 +87,30 @@ def rule_r1(repo):
     return rr
 
 
-def rule_r2(repo):
+def same_value(repo, a, b):
+    """Two initialiser expressions denote the same fresh value (e.g. BSRModifier(0, 0, 1) vs keyword form, a module constant vs its literal)."""
+    from sa.patheval import Frame, Path, Obj
+    from sa.rules.walk import WalkInterp, snapshot
+    m = repo.module('coder')
+    it = WalkInterp(repo, 'Decoder')
+    it.path = Path([])
+    out = []
+    for e in (a, b):
+        try:
+            fr = Frame(None, m, 'CoderState', 0)
+            v = it.ev(e, fr)
+        except Exception:
+            return False
+        if isinstance(v, Obj):
+            out.append((v.cls, tuple(sorted((k, repr(x)) for k, x in v.fields.items()))))
+        elif isinstance(v, (list, dict)):
+            out.append((type(v).__name__, repr(v)))
+        else:
+            out.append(repr(v))
+    return out[0] == out[1] and 'Top' not in str(out[0])
+
+
+def rule_r2_structural(repo):
     rr = RuleResult('C06.R2', 'switch_subset_context(idx) precedes template processing in every subset iteration')
     for cname in ('Decoder', 'Encoder'):
         fi = repo.own_method(cname, 'process_template_data')
@@ -205,7 +228,8 @@ def rule_r3(repo):
 
 def run(repo, check):
     check.run_rule(rule_r1, repo)
-    check.run_rule(rule_r2, repo)
+    from sa.rules import c05
+    check.run_rule(c05.rule_state_mode, repo, 'C06.R2')
     check.run_rule(rule_r3, repo)
     from sa.rules import c07
     r4 = c07.rule_r6(repo)
